@@ -13,8 +13,8 @@ extern "C" void __asan_poison_memory_region(void const volatile *addr, size_t si
 extern "C" void __asan_unpoison_memory_region(void const volatile *addr, size_t size);
 #endif
 
-enum { HA_PUT, HA_GET, HA_REMOVE, HA_CLEAR, HA_SIZE, HA_WALK, HA_DEBUG, HA_REATTACH, HA_SECOND, HA_RELOCATE };
-static const std::vector<std::string> HA_NAMES = {"put", "get", "remove", "clear", "size", "walk", "debug", "reattach", "second_handle", "relocate"};
+enum { HA_PUT, HA_GET, HA_REMOVE, HA_CLEAR, HA_SIZE, HA_WALK, HA_DEBUG, HA_REATTACH, HA_SECOND, HA_RELOCATE, HA_TINYCTOR };
+static const std::vector<std::string> HA_NAMES = {"put", "get", "remove", "clear", "size", "walk", "debug", "reattach", "second_handle", "relocate", "construct_on_too_small_region"};
 static const size_t GUARD = 64;
 static const int SLOT_DATA = Q_HASHARR_DATASIZE;
 #if QSIM_STRUCT
@@ -60,6 +60,7 @@ struct HaWorld : World {
         c.set("useed", (long)r.below(1000000));
         c.set("multi", prop == "C07" ? 1 : (prop == "C06" ? 0 : r.chance(1, 3)));
         c.set("dual", prop == "C07" ? 1 : 0);
+        c.set("slack", r.chance(1, 3) ? r.range(1, 83) : 0);     // the region is this many bytes larger than the slots need (not enough for one more slot)
         c.set("misalign", (prop == "C07" || prop == "C11") && r.chance(1, 3) ? 1 : 0);   // relocation targets include addresses that are not multiples of 4
         c.set("nops", r.range(5, r.chance(1, 4) ? 300 : 70));
         (void)mode;
@@ -77,7 +78,7 @@ struct HaWorld : World {
     Op gen_op(Rng &r, const std::string &prop, const std::string &mode, GenState &) override {
         Op op; int Uc = (int)cfg.get("U"); bool m = cfg.get("multi") != 0;
         op.k = wpick(r, {{46, HA_PUT}, {16, HA_GET}, {20, HA_REMOVE}, {1, HA_CLEAR}, {5, HA_SIZE}, {6, HA_WALK}, {prop == "C11" ? 1 : 0, HA_DEBUG},
-                         {m ? 4 : 0, HA_REATTACH}, {m ? 4 : 0, HA_SECOND}, {m ? 5 : 0, HA_RELOCATE}});
+                         {m ? 4 : 0, HA_REATTACH}, {m ? 4 : 0, HA_SECOND}, {m ? 5 : 0, HA_RELOCATE}, {(prop == "C07" || prop == "C11") ? 2 : 0, HA_TINYCTOR}});
         op.a = (int)r.below((uint32_t)Uc);
         switch (op.k) {
         case HA_PUT: { int api = (int)r.below(4); int klass = api >= 2 ? (r.chance(1, 2) ? 1 : 5) : (int)r.below(6); op.b = (int)r.below(1 << 20); op.c = gen_hvlen(r); if (klass == 1 || klass == 5) op.c = std::max(2, op.c); op.d = api | (klass << 2);
@@ -90,6 +91,7 @@ struct HaWorld : World {
 #endif
             break;
         case HA_RELOCATE: op.a = (int)r.below(16); break;
+        case HA_TINYCTOR: op.a = r.range(1, 95); break;
         default: break;
         }
         (void)mode;
@@ -112,8 +114,8 @@ struct HaWorld : World {
             if (style < 4) { int len = r.range(1, 14); for (int i = 0; i < len; i++) k += (char)('a' + r.below(6)); k += '\0'; }            // short C string
             else if (style < 6) { int len = r.range(1, 15); for (int i = 0; i < len; i++) k += (char)r.below(256); }                          // short binary
             else if (style == 6) { for (int i = 0; i < 15; i++) k += (char)('a' + r.below(3)); k += '\0'; }                                    // exactly 16 with terminator
-            else if (style < 9) { k = longbase.substr(0, 16); int len = r.pick(std::vector<int>{17, 18, 24, 24, 24, 40, 80}); while ((int)k.size() < len - 1) k += (char)('a' + r.below(4)); k += '\0'; }   // long keys sharing the stored prefix (and often the length)
-            else { k = longbase.substr(0, 16); int len = r.chance(1, 6) ? 65535 : r.range(100, 400); while ((int)k.size() < len - 1) k += (char)('a' + r.below(26)); k += '\0'; }
+            else if (style < 9) { k = longbase.substr(0, 16); int len = r.pick(std::vector<int>{17, 18, 24, 24, 24, 40, 64, 80, 128}); while ((int)k.size() < len - 1) k += (char)('a' + r.below(4)); k += '\0'; }   // long keys sharing the stored prefix (and often the length)
+            else { k = longbase.substr(0, 16); int len = r.chance(1, 6) ? 65535 : (r.chance(1, 4) ? r.pick(std::vector<int>{192, 256, 320}) : r.range(100, 400)); while ((int)k.size() < len - 1) k += (char)('a' + r.below(26)); k += '\0'; }
             int home = (int)(qhashmurmur3_32(k.data(), k.size()) % (uint32_t)maxslots);
             bool want = home == hot1 || home == hot2 || tries > 300 || r.chance(1, 4);
             tries++;
@@ -155,7 +157,8 @@ struct HaWorld : World {
     static void free_arena(Inst &i) { if (i.arena) { poison(i, false); free(i.arena); } i.arena = nullptr; }
 
     bool sut_create(Ctx &x) override {
-        size_t ms = qhasharr_calculate_memsize(maxslots);
+        size_t slot = qhasharr_calculate_memsize(2) - qhasharr_calculate_memsize(1);
+        size_t ms = qhasharr_calculate_memsize(maxslots) + (size_t)cfg.get("slack") % slot;
         for (int k = 0; k < ninst; k++) {
             Inst &i = in[k];
             new_arena(i, ms, k == 0 ? 0 : 12);
@@ -319,6 +322,20 @@ struct HaWorld : World {
             { InSut s; ok = t->debug(t, f); }
             fclose(f);
             return ok ? R_ok() : R_fail();
+        }
+        case HA_TINYCTOR: {
+            // a region too small for the header and one slot must be refused without a single byte written outside it
+            Inst tiny; size_t sz = (size_t)std::max(1, op.a % 96);
+            new_arena(tiny, sz, (size_t)(4 * (op.a % 8)));
+            memset(tiny.mem(), 0x33, sz);
+            qhasharr_t *th;
+            { Bookkeeping bk; InSut s; th = qhasharr(tiny.mem(), sz); }
+            bool gok = guards_ok(tiny);
+            if (th) { InSut s; qhasharr_free(th); }
+            free_arena(tiny);
+            if (!gok) x.fail("guard-damaged", x.o_mem ? "mem" : "struct", "the constructor wrote outside a " + num((long long)sz) + "-byte region");
+            if (primary) x.st.add("probe.constructor_on_too_small_region");
+            return th ? R_ok("accepted") : R_fail("refused");
         }
         case HA_REATTACH: {
             // drop the handle; a new one attaches to the existing image (memsize 0)
@@ -511,6 +528,7 @@ Result HaModel::apply(const Op &op) {
         return m.erase(k) ? R_ok() : R_fail();
     case HA_CLEAR: m.clear(); return R_ok();
     case HA_SIZE: return R_ok(num((long long)m.size()) + "," + num(maxslots) + "," + num(used()));
+    case HA_TINYCTOR: return R_fail("refused");
     case HA_WALK: {
         std::vector<Bytes> seen;
         for (auto &kv : m) { Bytes e; enc(e, kv.first.substr(0, Q_HASHARR_NAMESIZE)); enc(e, kv.second); seen.push_back(e); }
